@@ -124,6 +124,14 @@ func PanicKey(val, stack string) (fn string, class string) {
 
 // PanicClass buckets a panic value.
 func PanicClass(val string) string {
+	if strings.HasPrefix(val, "invalid type: ") {
+		// gojq met a Go value that is not a jq value
+		t := strings.TrimPrefix(val, "invalid type: ")
+		if i := strings.IndexByte(t, ' '); i >= 0 {
+			t = t[:i]
+		}
+		return "invalid-type:" + t
+	}
 	switch {
 	case strings.Contains(val, "index out of range"):
 		return "index-out-of-range"
